@@ -45,8 +45,6 @@ class History(Harness):
         out = []
         for i in range(len(F1)):
             for j in range(len(F2)):
-                if tier == 'quick' and (i * 7 + j) % 3 != 0:
-                    continue
                 out.append({'i': i, 'j': j})
         return out
 
@@ -88,6 +86,47 @@ def tb_len(exc):
     return n
 
 
+_LEAF = (str, bytes, int, float, complex, bool, type(None))
+
+
+def deep_size(root, depth=7):
+    """number of container slots reachable from root through instance attributes, lists, tuples, sets and dicts (cycle-safe,
+    depth-limited; functions, classes, modules and compiled patterns are leaves): a structural measure that any cache,
+    memo, note list or retained chain makes grow"""
+    import types
+    seen = set()
+    total = 0
+    stack = [(root, 0)]
+    while stack:
+        o, d = stack.pop()
+        if isinstance(o, _LEAF) or isinstance(o, (types.FunctionType, types.BuiltinFunctionType, types.ModuleType, type, types.MethodType)):
+            continue
+        if type(o).__module__.startswith('vf.') or type(o).__module__ in ('z3.z3', 're'):
+            continue        # symbolic proxies / solver terms / patterns are leaves
+        if id(o) in seen or d > depth:
+            continue
+        seen.add(id(o))
+        if isinstance(o, dict):
+            kids = list(o.keys()) + list(o.values())
+        elif isinstance(o, (list, tuple, set, frozenset)):
+            kids = list(o)
+        else:
+            kids = []
+            dct = getattr(o, '__dict__', None)
+            if isinstance(dct, dict):
+                kids += list(dct.values())
+                total += len(dct)
+            for sl in getattr(type(o), '__slots__', ()) or ():
+                if isinstance(sl, str) and hasattr(o, sl):
+                    kids.append(getattr(o, sl))
+            if isinstance(o, BaseException):
+                kids += [o.args, getattr(o, '__notes__', None)]
+        total += len(kids)
+        for k in kids:
+            stack.append((k, d + 1))
+    return total
+
+
 def state_size(env, P):
     """size of the state that outlives an evaluation: bindings, listener lists, parser/lexer attributes, and the
     traceback / context chains hanging off the shared error singletons"""
@@ -98,6 +137,11 @@ def state_size(env, P):
     plex = sys.modules.get('ply.lex')
     glex = getattr(plex, 'lexer', None)
     return {
+        'deep_size_of_error_singletons': sum(deep_size(x) for x in singles),
+        'deep_size_of_parser_object': deep_size(P),
+        'deep_size_of_module_globals': sum(deep_size(v, 4) for name, m in sorted(sys.modules.items())
+                                           if name.startswith('hotxlfp') and m is not None
+                                           for v in vars(m).values() if isinstance(v, (dict, list, set))),
         'traceback_frames_on_error_singletons': tbs,
         'error_singletons_with_context': ctx,
         'variables': len(P.variables), 'functions': len(P.functions),
@@ -117,21 +161,29 @@ class State(Harness):
           'ply\'s global lexer and the shared error singletons (traceback / context chains) has the same size after 1, 2 and 3 ' \
           'repetitions of an evaluation (induction step k -> k+1), for valid, erroneous and aborted evaluations'
     functions = ('Parser.parse', 'error (module-level XLError singletons)', 'Parser._throw_error', 'utils.inumbers', 'Parser.call_function')
-    bounds = '%d formulas, each repeated 1, 2, 3 times on one parser; variable values symbolic integers' % len(F1)
+    bounds = '%d formulas, each evaluated 3 times on one parser - the same text, or three texts that differ in trailing blanks ' \
+             '(which defeats a cache keyed by the text) - with debug output off and on; measured after each evaluation: a ' \
+             'structural size (container slots reachable through attributes, lists, dicts, exception notes and arguments) of ' \
+             'the parser, of every hotxlfp module\'s global containers and of the shared error objects, plus their traceback ' \
+             'and context chains; variable values symbolic integers' % len(F1)
 
     def cases(self, tier):
-        return [{'i': i} for i in range(len(F1))]
+        return [{'i': i, 'debug': d, 'vary': v} for i in range(len(F1)) for d in (0, 1) for v in (0, 1)]
 
     def build(self, e, p):
         return {'a': e.fresh_int('a', -100, 100), 'b': e.fresh_int('b', -100, 100)}
 
     def run(self, env, inp, p):
-        P = env.Parser()
+        import io
+        import contextlib
+        P = env.Parser(debug=bool(p.get('debug')))
         bind(env, P, inp)
         f = F1[p['i']]
         sizes = []
+        buf = io.StringIO()
         for k in range(3):
-            P.parse(f)
+            with contextlib.redirect_stderr(buf), contextlib.redirect_stdout(buf):
+                P.parse(f + ' ' * k if p.get('vary') else f)
             sizes.append(state_size(env, P))
         return sizes
 
